@@ -203,13 +203,16 @@ package redis
 
 //@ func (*Reader).ReadSlice
 //@   prop C10 C11
-//@   requires readerRI(b)
-//@   modifies b.r, b.w, b.err, b.buf[0:len(b.buf)]
-//@   ensures @ri readerRI(b) && b.buf == old(b.buf)
+//@   requires readerRI(b) && (b.err == nil ==> windowok(b))
+//@   modifies b.r, b.w, b.err, b.buf[0:len(b.buf)], fetched
+//@   ensures @ri readerRI(b) && b.buf == old(b.buf) && b.rd == old(b.rd) && (b.err == nil ==> windowok(b))
 //@   ensures @line result1 == nil ==> len(result0) >= 1 && len(result0) <= len(b.buf) && base(result0) == base(b.buf)
+//@   ensures @line-is-next-stream-bytes result1 == nil ==> b.err == nil && rpos(b) == old(rpos(b)) + len(result0) && forall k int :: 0 <= k && k < len(result0) ==> result0[k] == stream[src(b)][old(rpos(b)) + k]
+//@   ensures @line-ends-at-first-delimiter result1 == nil ==> result0[len(result0)-1] == delim && forall k int :: 0 <= k && k < len(result0) - 1 ==> result0[k] != delim
 //@   ensures @full-or-error result1 != nil ==> (len(result0) == 0 || result0 == b.buf)
 //@   ensures @error-kind result1 != nil ==> (result1 == bufio.ErrBufferFull && result0 == b.buf) || (b.err != nil && result1 == b.err && isnil(result0))
-//@   loop 0 invariant readerRI(b) && b.buf == old(b.buf)
+//@   ensures @full-buffer-is-next-stream-bytes result1 == bufio.ErrBufferFull ==> b.err == nil && rpos(b) == old(rpos(b)) + len(b.buf) && forall k int :: 0 <= k && k < len(b.buf) ==> b.buf[k] == stream[src(b)][old(rpos(b)) + k] && b.buf[k] != delim
+//@   loop 0 invariant readerRI(b) && b.buf == old(b.buf) && b.rd == old(b.rd) && b.err == nil && windowok(b) && rpos(b) == old(rpos(b))
 
 //@ func (*Reader).ReadBytes
 //@   prop C10 C11
